@@ -923,7 +923,7 @@ func (C07) Run(ctx *sim.RunCtx, data json.RawMessage) (*sim.Outcome, error) {
 					// the same directory again, one file richer below its first sub-directory
 					dir = dl[k].dir
 					first := dl[k].files[0]
-					xp := filepath.Join(dir, fmt.Sprintf("%02d_%s", 0, sc.Files[first].ID), "Zextra"+sc.Files[op.Extra].ID+".java")
+					xp := filepath.Join(dir, fmt.Sprintf("%02d_%s", 0, sc.Files[first].ID), "zzExtra"+sc.Files[op.Extra].ID+".java")
 					// the file appears between the two scans: written by the process itself at this point of its script
 					proc.Ops = append(proc.Ops, sim.Op{Op: "writeFile", Args: map[string]interface{}{"path": xp, "text": sc.Files[op.Extra].Text}})
 					r.paths[xp] = "<" + sc.Files[op.Extra].ID + ">"
